@@ -77,7 +77,7 @@ def from_bytes_shape(vc, n):
     vc.prove("payload_is_none_or_hdap", p.payload is None or isinstance(p.payload, HDAP))
 
 
-from_bytes_shape.shapes = lambda tier: [dict(n=n) for n in (0, 1, 5, 6)]
+from_bytes_shape.shapes = lambda tier: [dict(n=n) for n in (0, 1, 5, 6, 7, 8)]  # (9 octets and more: the 16-bit RCP opcode enumeration makes each path cost seconds; assumed, see props.py)
 
 
 # exception classes the real parser raises on malformed datagrams, each with a datagram that triggers it natively
